@@ -143,12 +143,16 @@ pub fn slots_volatile(n: usize) -> Vec<Universe> {
 
 /// multi-output job gaining / losing outputs (its id changes)
 pub fn rename(with_y: bool, m_kind: Kind) -> Vec<Universe> {
+    rename_opts(with_y, m_kind, true)
+}
+
+pub fn rename_opts(with_y: bool, m_kind: Kind, optional_x_edge: bool) -> Vec<Universe> {
     let mut graphs = Vec::new();
     for m_id in ["p", "p:::q", "q"] {
         for has_d in [true, false] {
             for has_c in [false, true] {
                 for has_y in if with_y { vec![false, true] } else { vec![false] } {
-                    for x_edge in [true, false] {
+                    for x_edge in if optional_x_edge { vec![true, false] } else { vec![true] } {
                         let mut jobs = vec![JobDef::new("x", Kind::A), JobDef::new(m_id, m_kind)];
                         let mut edges = Vec::new();
                         if x_edge {
@@ -206,7 +210,7 @@ pub fn rename(with_y: bool, m_kind: Kind) -> Vec<Universe> {
     }
     graphs.sort_by_key(|g| (g.n(), g.edges.len()));
     vec![Universe {
-        label: format!("rename:{:?}{}", m_kind, if with_y { "+y" } else { "" }),
+        label: format!("rename:{:?}{}{}", m_kind, if with_y { "+y" } else { "" }, if optional_x_edge { "+x-edge-optional" } else { "" }),
         graphs,
     }]
 }
@@ -260,6 +264,14 @@ pub fn shapes(neighbours: bool) -> Vec<Universe> {
             "E-E-O+A-mid",
             &[("e1", E), ("x", A), ("e2", E), ("o", O)],
             &[("e1", "e2"), ("x", "e2"), ("e2", "o")],
+            neighbours,
+        ),
+        // an Ephemeral is judged unnecessary because all its direct downstreams validate, then a
+        // consumer two levels down is invalidated late
+        shape(
+            "late-requirement",
+            &[("e1", E), ("e2", E), ("o1", O), ("o2", O), ("x", A)],
+            &[("e1", "e2"), ("e1", "o1"), ("e2", "o2"), ("x", "o2")],
             neighbours,
         ),
         // finding F7: skipped Output between two Ephemerals
